@@ -207,7 +207,7 @@ fn run_full(rep: &mut Report, patterns: &[String], keys: &[String]) -> (u64, u64
 }
 
 pub fn run(tier: &str) -> i32 {
-    let max_len = if tier == "thorough" { 5 } else { 4 };
+    let max_len = if tier == "thorough" { 6 } else { 4 };
     // the empty string is not a pattern any stored key can match (the key "" cannot be stored) and
     // pdelete refuses it as an empty key; it is left out
     let patterns: Vec<String> = all_seqs(&["a", "ab", "", "?", "#"], max_len)
